@@ -23,6 +23,12 @@ class Unknown(Exception):
     pass
 
 
+class Stale(Exception):
+    """the formula reads a value that was (re)assigned inside a try body whose handler is running: on the path through the handler
+    the assignment may not have happened"""
+    pass
+
+
 DOUBLE = ("double", "const double", "float", "const float")
 def fresh(name, key):
     """an unknown value; the name is a function of the program point so that two walks through the same statement agree"""
@@ -134,6 +140,8 @@ class Walker:
             q = n["member"]["qname"]
             if q in self.ffields:
                 pt = st.fv.get(q)
+                if pt is not None and len(pt) == 2 and pt[0] == "stale":
+                    raise Stale("%s is assigned inside the try block at %s; in this handler the exception may have been raised before that assignment, and the handler does not take the value again" % (n["member"]["name"], pt[1]))
                 if pt is None:
                     raise Unknown("the point at which %s was evaluated is not known here" % n["member"]["name"])
                 return _P(pt)
@@ -191,12 +199,12 @@ class Walker:
                 ffs |= set(self.ffields)
         return locs, ffs
 
-    def havoc(self, st, locs, ffs, coords=False, key=""):
+    def havoc(self, st, locs, ffs, coords=False, key="", stale=None):
         for i in locs:
             if i in st.loc:
                 st.loc[i] = fresh("v%d" % i, key)
         for q in ffs:
-            st.fv[q] = None
+            st.fv[q] = ("stale", stale) if stale else None
         if coords:
             for k in list(st.pp):
                 st.pp[k] = None
@@ -327,7 +335,7 @@ class Walker:
             outs = []
             for h in handlers:
                 hs = st.copy()
-                self.havoc(hs, locs, ffs, coords=True, key="H%d" % h["id"])
+                self.havoc(hs, locs, ffs, coords=True, key="H%d" % h["id"], stale=self.f.loc(n))
                 outs.extend(self.run(kids(h)[-1] if kids(h) else None, hs, in_retry))
             if in_retry and s1:
                 return s1
@@ -514,6 +522,9 @@ def check(chk, fb, rid, qnames, minimum):
                 try:
                     e = w.sx(r0, s)
                     deg, npts, fail = exactness(e, kind)
+                except Stale as ex:
+                    verdicts.append(("refuted", "%s '%s' uses a value this path may not have computed: %s" % (what, render(r0)[:80], ex), {"formula": render(r0), "history": "a constraint hit by the first probe of the try block"}))
+                    continue
                 except Unknown as ex:
                     verdicts.append(("unknown", str(ex)))
                     continue
